@@ -25,6 +25,8 @@ pub struct Knobs {
     pub meta_pct: u64,
     /// share (1/1000) of video frames of 60..70 KiB
     pub big_frames: u32,
+    /// allow the rare frames of 128 KiB .. 4 MiB
+    pub mib_frames: bool,
     /// audio timestamps: percent of runs whose audio clock is skewed / jittered against the nominal frame duration
     pub audio_jitter_pct: u64,
     /// percent of runs using encode_* convenience calls
@@ -64,6 +66,7 @@ impl Knobs {
             audio_pct: 60,
             meta_pct: 40,
             big_frames: 4,
+            mib_frames: true,
             audio_jitter_pct: 35,
             enc_api_pct: 8,
             start_offset_pct: 30,
@@ -302,7 +305,7 @@ pub fn gen_prog_with_cfg(rng: &mut Rng, k: &Knobs, cfg: ProgCfg) -> (ProgCase, G
         } else {
             FrameShape::Delta
         };
-        let size = if huge { rng.range(1, 12) as usize } else { SizeClass::draw(rng, big) };
+        let size = if huge { rng.range(1, 12) as usize } else { SizeClass::draw_ex(rng, big, k.mib_frames) };
         let f = frames::build_video(rng, codec, shape, next_stamp(), size, k.decorate);
         let cc = f.has_config;
         let op = if reordered || (mixed && rng.bool()) {
